@@ -29,7 +29,7 @@ REPO = Path(os.environ.get("VERIF_REPO", "/repo"))
 FLAG = {"GOOD": ".good", "UNKNOWN": ".unknown", "SUSPECT": ".suspect", "FAIL": ".fail", "MISSING": ".missing"}
 FUNCS = {"gross_range_test": "ioos_qc/qartod.py", "spike_test": "ioos_qc/qartod.py", "rate_of_change_test": "ioos_qc/qartod.py",
          "location_test": "ioos_qc/qartod.py", "density_inversion_test": "ioos_qc/qartod.py",
-         "flat_line_test": "ioos_qc/qartod.py", "climatology_test": "ioos_qc/qartod.py", "qartod_compare": "ioos_qc/qartod.py", "speed_test": "ioos_qc/argo.py", "pressure_increasing_test": "ioos_qc/argo.py", "valid_range_test": "ioos_qc/axds.py"}
+         "flat_line_test": "ioos_qc/qartod.py", "climatology_test": "ioos_qc/qartod.py", "attenuated_signal_test": "ioos_qc/qartod.py", "qartod_compare": "ioos_qc/qartod.py", "speed_test": "ioos_qc/argo.py", "pressure_increasing_test": "ioos_qc/argo.py", "valid_range_test": "ioos_qc/axds.py"}
 
 
 class Untranslatable(Exception):
@@ -831,7 +831,143 @@ class TrClim:
         return check + "\n" + head2 + "\n" + "\n".join(out) + "\n"
 
 
+# ------------------------------------------------------------------------------------------------------------------------------
+# attenuated_signal_test: dispatch on check_type / test_period / min_obs / min_period; five ordered assignments on the statistics
+# ------------------------------------------------------------------------------------------------------------------------------
+WINDOW_FUNC_PTP = ast.unparse(ast.parse('''
+def window_func(w):
+    try:
+        return w.apply(np.ptp, raw=True, engine="numba")
+    except (ImportError, TypeError, NumbaTypeError):
+        return w.apply(np.ptp, raw=True)
+''').body[0])
+MEDIAN_STEP = "np.median(np.diff(tinp)).astype('timedelta64[s]').astype(float)"
+
+
+class TrAtten:
+    def __init__(self, fn):
+        self.fn = fn
+        self.lines = []
+
+    def emit(self, ind, text):
+        self.lines.append("  " * ind + text)
+
+    def flag(self, e):
+        if isinstance(e, ast.Attribute) and src(e.value) in ("QartodFlags", "FLAGS") and e.attr in FLAG:
+            return FLAG[e.attr]
+        raise Untranslatable(f"flag {src(e)}")
+
+    def func_branch(self, body, ind):
+        """the statements that choose window_func / check_func in one branch of the check_type dispatch"""
+        for st in body:
+            if isinstance(st, ast.Assign) and src(st.targets[0]) == "window_func" and src(st.value) == "lambda x: x.std()":
+                self.emit(ind, "window_func := WinFunc.std")
+            elif isinstance(st, ast.FunctionDef) and st.name == "window_func":
+                if ast.unparse(ast.FunctionDef(name=st.name, args=st.args, body=[b for b in st.body if not (isinstance(b, ast.Expr) and isinstance(b.value, ast.Constant))],
+                                               decorator_list=[], returns=None, type_comment=None, lineno=0, col_offset=0, **({"type_params": []} if hasattr(st, "type_params") else {}))) != WINDOW_FUNC_PTP:
+                    raise Untranslatable("window_func (range) is not in the form read as WinFunc.ptp")
+                self.emit(ind, "window_func := WinFunc.ptp")
+            elif isinstance(st, ast.Assign) and src(st.targets[0]) == "check_func" and src(st.value) in ("np.std", "np.ptp"):
+                self.emit(ind, f"check_func := CheckFunc.{src(st.value)[3:]}")
+            elif isinstance(st, ast.Assign) and src(st.targets[0]) == "msg":
+                continue
+            elif isinstance(st, ast.Raise) and is_call(st.exc, "ValueError"):
+                self.emit(ind, "throw .value")
+            else:
+                raise Untranslatable(f"check_type branch: {src(st)[:60]}")
+
+    def run(self):  # noqa: C901, PLR0912, PLR0915
+        want = ["inp", "tinp", "suspect_threshold", "fail_threshold", "test_period", "min_obs", "min_period", "check_type"]
+        if [a.arg for a in self.fn.args.args] != want or [src(d) for d in self.fn.args.defaults[:3]] != ["None", "None", "None"]:
+            raise Untranslatable("signature of attenuated_signal_test")
+        body = [s_ for s_ in self.fn.body if not (isinstance(s_, ast.Expr) and isinstance(s_.value, ast.Constant))]
+        it = iter(body)
+        st = next(it)
+        # 1. dispatch on check_type
+        if not (isinstance(st, ast.If) and src(st.test) == "check_type == 'std'" and len(st.orelse) == 1 and isinstance(st.orelse[0], ast.If)
+                and src(st.orelse[0].test) == "check_type == 'range'" and st.orelse[0].orelse):
+            raise Untranslatable("check_type dispatch")
+        self.emit(1, "let mut window_func := WinFunc.std")
+        self.emit(1, "let mut check_func := CheckFunc.std")
+        self.emit(1, 'if check_type = "std" then')
+        self.func_branch(st.body, 2)
+        self.emit(1, 'else if check_type = "range" then')
+        self.func_branch(st.orelse[0].body, 2)
+        self.emit(1, "else")
+        self.func_branch(st.orelse[0].orelse, 2)
+        for st in it:
+            t = src(st)
+            if t in ("tinp = mapdates(tinp)", "original_shape = inp.shape"):
+                continue
+            if isinstance(st, ast.With) and src(st.items[0].context_expr) == "warnings.catch_warnings()":
+                rest = [src(b) for b in st.body if src(b) != "warnings.simplefilter('ignore')"]
+                if rest != ["inp = " + NORMALISE.format("inp")]:
+                    raise Untranslatable(f"normalisation: {rest}")
+                self.emit(1, "let inp := ofInput inp")
+                continue
+            if t == "flag_arr = np.full((inp.size,), QartodFlags.UNKNOWN)":
+                self.emit(1, "let mut flag_arr := List.replicate inp.length Flag.unknown")
+                continue
+            if isinstance(st, ast.If) and src(st.test) == "inp.size == 0" and not st.orelse and [src(b) for b in st.body] == ["return flag_arr.reshape(original_shape)"]:
+                self.emit(1, "if inp.length == 0 then")
+                self.emit(2, "return flag_arr")
+                continue
+            if isinstance(st, ast.If) and src(st.test) == "test_period" and st.orelse:
+                self.emit(1, "let mut check_val : List Stat := []")
+                self.emit(1, "if let some test_period := test_period then")
+                self.windowed(st.body, 2)
+                self.emit(1, "else")
+                rest = [src(b) for b in st.orelse]
+                if rest != ["series = inp.flatten()", "check_val = np.ones_like(flag_arr) * check_func(series)"]:
+                    raise Untranslatable(f"whole-series branch: {rest}")
+                self.emit(2, "check_val := List.replicate flag_arr.length (wholeApply check_func inp)")
+                continue
+            if isinstance(st, ast.Assign) and isinstance(st.targets[0], ast.Subscript) and src(st.targets[0].value) == "flag_arr":
+                sl, f = st.targets[0].slice, self.flag(st.value)
+                if isinstance(sl, ast.Compare) and len(sl.ops) == 1 and src(sl.left) == "check_val" and isinstance(sl.comparators[0], ast.Name) \
+                        and sl.comparators[0].id in ("suspect_threshold", "fail_threshold") and type(sl.ops[0]) in (ast.GtE, ast.Lt):
+                    self.emit(1, f"flag_arr := setWhere flag_arr ({'statGe' if isinstance(sl.ops[0], ast.GtE) else 'statLt'} check_val {sl.comparators[0].id}) {f}")
+                    continue
+                if src(sl) == "np.isnan(check_val)":
+                    self.emit(1, f"flag_arr := setWhere flag_arr (statIsNan check_val) {f}")
+                    continue
+                if src(sl) == "inp.mask":
+                    self.emit(1, f"flag_arr := setWhere flag_arr (maskOf inp) {f}")
+                    continue
+            if t == "return flag_arr.reshape(original_shape)":
+                self.emit(1, "return flag_arr")
+                continue
+            raise Untranslatable(f"statement {t[:80]}")
+        head = ("def attenuated_signal_test (inp : List V) (tinp : List Int) (suspect_threshold : Rat) (fail_threshold : Rat) "
+                "(test_period : Option Rat) (min_obs : Option Nat) (min_period : Option Rat) (check_type : String) : Res := do")
+        return head + "\n" + "\n".join(self.lines) + "\n"
+
+    def windowed(self, body, ind):
+        st = body[0]
+        if not (isinstance(st, ast.If) and src(st.test) == "min_obs is not None" and [src(b) for b in st.body] == ["min_periods = min_obs"]
+                and len(st.orelse) == 1 and isinstance(st.orelse[0], ast.If) and src(st.orelse[0].test) == "min_period is not None"
+                and [src(b) for b in st.orelse[0].body] == ["time_interval = " + MEDIAN_STEP, "min_periods = (min_period / time_interval).astype(int)"]
+                and [src(b) for b in st.orelse[0].orelse] == ["min_periods = None"]):
+            raise Untranslatable("min_periods dispatch")
+        self.emit(ind, "let mut min_periods : Option Nat := none")
+        self.emit(ind, "if let some min_obs := min_obs then")
+        self.emit(ind + 1, "min_periods := some min_obs")
+        self.emit(ind, "else if let some min_period := min_period then")
+        self.emit(ind + 1, "let mut time_interval := medianStep tinp")
+        self.emit(ind + 1, "min_periods := some (ratioFloor min_period time_interval)")
+        self.emit(ind, "else")
+        self.emit(ind + 1, "min_periods := none")
+        rest = [src(b) for b in body[1:]]
+        if rest != ["series = pd.Series(inp.flatten(), index=tinp.flatten())", "windows = series.rolling(f'{test_period}s', min_periods=min_periods)",
+                    "check_val = window_func(windows)"]:
+            raise Untranslatable(f"rolling window: {rest}")
+        self.emit(ind, "check_val := rollingApply window_func min_periods inp tinp test_period")
+
+
 def translate(name: str) -> str:
+    if name == "attenuated_signal_test":
+        tree = ast.parse((REPO / "ioos_qc/qartod.py").read_text())
+        return TrAtten(next(n for n in tree.body if isinstance(n, ast.FunctionDef) and n.name == name)).run()
     if name == "climatology_test":
         return TrClim(ast.parse((REPO / "ioos_qc/qartod.py").read_text())).run()
     tree = ast.parse((REPO / FUNCS[name]).read_text())
